@@ -34,7 +34,7 @@ func ValidEnt(p EntParamsRaw) bool {
 	}
 	es := SignerEntries(p.Signers)
 	for _, e := range es {
-		if e == "" || strings.HasPrefix(e, "!") {
+		if e == "" || strings.HasPrefix(e, "!") || strings.Contains(e, "~") { // empty, malformed text, padded with white space
 			return false
 		}
 	}
